@@ -27,7 +27,7 @@ def CONCAT(
 @xl.register()
 @xl.validate_args
 def CONCATENATE(
-        *parameters: Tuple[func_xltypes.XlAnything]
+        *parameters: Tuple[func_xltypes.XlText]
 ) -> func_xltypes.XlText:
     """Use CONCATENATE, one of the text functions, to join two or more
     text strings into one string.
